@@ -32,9 +32,8 @@ Check (C05_invariant_all_histories : forall evs g s s' outs,
 Check (C05_all_histories_all_segments : forall evs g s,
   inv g s -> Forall (fun ce => ctx_ok (fst ce) /\ tx_ev_ok (snd ce)) evs -> hist_ok g s evs).
 
-Check (C05_tx_payload_is_stream : forall cx g s e s' res tags p,
-  inv g s -> ctx_ok cx -> tcp_dispatch cx s e = Ok (s', res, tags) -> disp_pkt res = Some p ->
-  ~ (exists s1, frame s s1 /\ is_keep_alive_seg s1 cx (snd p)) ->
+Check (C05_tx_payload_is_stream : forall cx g s e s' tags p,
+  inv g s -> ctx_ok cx -> tcp_dispatch cx s e = Ok (s', DSent p, tags) -> ~ In 245 tags ->
   0 < l_len (r_payload (snd p)) ->
   exists k, r_seq_number (snd p) = sq (g_iss g + 1 + k) /\ g_acked g <= k /\
             k + l_len (r_payload (snd p)) <= l_len (g_stream g) /\
@@ -44,18 +43,16 @@ Check (C05_retransmission_same_bytes : forall g g' k n,
   same_epoch g g' -> 0 <= k -> 0 <= n -> k + n <= l_len (g_stream g) ->
   l_slice k n (g_stream g') = l_slice k n (g_stream g)).
 
-Check (C05_tx_within_window : forall cx g s e s' res tags p,
-  inv g s -> ctx_ok cx -> tcp_dispatch cx s e = Ok (s', res, tags) -> disp_pkt res = Some p ->
-  ~ (exists s1, frame s s1 /\ is_keep_alive_seg s1 cx (snd p)) ->
+Check (C05_tx_within_window : forall cx g s e s' tags p,
+  inv g s -> ctx_ok cx -> tcp_dispatch cx s e = Ok (s', DSent p, tags) -> ~ In 245 tags ->
   0 < l_len (r_payload (snd p)) ->
   exists k, r_seq_number (snd p) = sq (g_iss g + 1 + k) /\
     (k + l_len (r_payload (snd p)) <= g_acked g + s_remote_win_len s \/
      (l_len (r_payload (snd p)) = 1 /\ s_remote_win_len s = 0 /\
       exists s1, frame s s1 /\ timer_should_zero_window_probe (s_timer s1) (cx_now cx) = true))).
 
-Check (C05_tx_within_mss_mtu : forall cx g s e s' res tags p,
-  inv g s -> ctx_ok cx -> tcp_dispatch cx s e = Ok (s', res, tags) -> disp_pkt res = Some p ->
-  ~ (exists s1, frame s s1 /\ is_keep_alive_seg s1 cx (snd p)) ->
+Check (C05_tx_within_mss_mtu : forall cx g s e s' tags p,
+  inv g s -> ctx_ok cx -> tcp_dispatch cx s e = Ok (s', DSent p, tags) -> ~ In 245 tags ->
   0 < l_len (r_payload (snd p)) ->
   l_len (r_payload (snd p)) <= s_remote_mss s /\
   wipv4_HEADER_LEN + ip_payload_len (fst p) <= cx_ip_mtu cx).
@@ -79,15 +76,13 @@ Check (C05_dispatch_keeps_learned : forall cx g s e s' res tags,
   (s_remote_win_len s' = s_remote_win_len s /\ s_remote_mss s' = s_remote_mss s /\
    s_remote_win_shift s' = s_remote_win_shift s) \/ s' = tcp_reset s).
 
-Check (C05_tx_new_data_contiguous : forall cx g s e s' res tags p,
-  inv g s -> ctx_ok cx -> tcp_dispatch cx s e = Ok (s', res, tags) -> disp_pkt res = Some p ->
-  ~ (exists s1, frame s s1 /\ is_keep_alive_seg s1 cx (snd p)) ->
+Check (C05_tx_new_data_contiguous : forall cx g s e s' tags p,
+  inv g s -> ctx_ok cx -> tcp_dispatch cx s e = Ok (s', DSent p, tags) -> ~ In 245 tags ->
   0 < l_len (r_payload (snd p)) ->
   exists k, r_seq_number (snd p) = sq (g_iss g + 1 + k) /\ 1 + k <= g_hw g).
 
-Check (C05_fin_after_all_data : forall cx g s e s' res tags p,
-  inv g s -> ctx_ok cx -> tcp_dispatch cx s e = Ok (s', res, tags) -> disp_pkt res = Some p ->
-  ~ (exists s1, frame s s1 /\ is_keep_alive_seg s1 cx (snd p)) ->
+Check (C05_fin_after_all_data : forall cx g s e s' tags p,
+  inv g s -> ctx_ok cx -> tcp_dispatch cx s e = Ok (s', DSent p, tags) -> ~ In 245 tags ->
   r_control (snd p) = CFin ->
   g_fin g = true /\
   exists k, r_seq_number (snd p) = sq (g_iss g + 1 + k) /\
@@ -96,9 +91,8 @@ Check (C05_fin_after_all_data : forall cx g s e s' res tags p,
 Check (C05_fin_freezes_stream : forall g g', same_epoch g g' -> g_fin g = true ->
   g_fin g' = true /\ g_stream g' = g_stream g).
 
-Check (C05_syn_window_unscaled : forall cx g s e s' res tags p,
-  inv g s -> ctx_ok cx -> tcp_dispatch cx s e = Ok (s', res, tags) -> disp_pkt res = Some p ->
-  ~ (exists s1, frame s s1 /\ is_keep_alive_seg s1 cx (snd p)) ->
+Check (C05_syn_window_unscaled : forall cx g s e s' tags p,
+  inv g s -> ctx_ok cx -> tcp_dispatch cx s e = Ok (s', DSent p, tags) -> ~ In 245 tags ->
   r_control (snd p) = CSyn ->
   l_len (r_payload (snd p)) = 0 /\ r_seq_number (snd p) = sq (g_iss g) /\
   r_window_len (snd p) = u16_try (rb_window (s_rx_buffer s))).
